@@ -773,7 +773,7 @@ fn container_idx(reg: &Reg) -> Vec<usize> {
 
 pub fn gen_c06(reg: Arc<Reg>) -> GenFn {
     let eligible = container_idx(&reg);
-    case_gen(reg, eligible, GenOpts { blind: 0.02, alt_key_spellings: true, ..GenOpts::default() })
+    case_gen(reg, eligible, GenOpts { blind: 0.02, alt_key_spellings: true, nonfinite: true, ..GenOpts::default() })
 }
 
 fn parse_collision(ty: &Ty, pv: &PV, depth: usize) -> bool {
@@ -804,7 +804,7 @@ fn parse_collision(ty: &Ty, pv: &PV, depth: usize) -> bool {
 
 pub fn test_c06(reg: &Reg, case: &Case, stats: Option<&mut Stats>) -> Verdict {
     let e = &reg.entries[case.ty];
-    if case.payload.has_dup_keys() || case.payload.has_nonfinite() {
+    if case.payload.has_dup_keys() {
         return Verdict::Ok;
     }
     let src = src_for(case);
